@@ -98,6 +98,10 @@ func cmdAdmit(args []string) {
 	}
 	for _, sc := range scs {
 		if sc.inconcl != "" {
+			// a definite wrong value seen before the scenario got stuck is still a wrong value
+			for _, v := range sc.viol {
+				res.violate(v.Sig, v.What, v.Replay)
+			}
 			res.Inconclusive = append(res.Inconclusive, sc.inconcl)
 
 			continue
@@ -154,7 +158,8 @@ func runAdmitScenario(col *trace.Collector, rng *rand.Rand, idx int) (hooks []ve
 		return nil, nil, err.Error(), nil, 0
 	}
 	ids := []string{"", self, "pa", "pb", "pc", "pa"}
-	follows := []string{"", "list_ok", "list_ok", "list_wrong_cost", "late_then_list", "list_then_drop", "fwd_changed", "reject_frame", "close"}
+	follows := []string{"", "list_ok", "list_ok", "list_wrong_cost", "late_then_list", "list_then_drop", "fwd_changed", "reject_frame", "close",
+		"listok_then_wrong_cost", "late_then_wrong_cost", "random", "random", "random"}
 	ns := 2 + rng.Intn(3)
 	sessions := make([]admitSess, ns)
 	for i := range sessions {
@@ -292,6 +297,47 @@ func runAdmitScenario(col *trace.Collector, rng *rand.Rand, idx int) (hooks []ve
 			send(2, map[string]float64{self: c}, s.ID)
 			send(3, map[string]float64{self: c}, s.ID+"x")
 			expectClosed = true
+		case "listok_then_wrong_cost":
+			send(2, map[string]float64{self: c}, s.ID)
+			send(3, map[string]float64{self: c, "other": 1}, s.ID)
+			send(4, map[string]float64{self: c + 1}, s.ID)
+			expectClosed = true
+		case "late_then_wrong_cost":
+			send(2, map[string]float64{}, s.ID)
+			send(3, map[string]float64{self: c + 2}, s.ID)
+			expectClosed = true
+		case "random":
+			// Admit.tla's PeerUpdate parameter space, several steps on one session; the session must be closed at the
+			// first step that Admit.tla's PeerUpdate closes it and not before
+			listed := false
+			for step, k := 0, 2+rng.Intn(4); step < k && !expectClosed; step++ {
+				lists, wrong, otherFwd := rng.Intn(4) != 0, rng.Intn(4) == 0, rng.Intn(8) == 0
+				conns := map[string]float64{"other": float64(1 + rng.Intn(3))}
+				if lists {
+					conns[self] = c
+					if wrong {
+						conns[self] = c + float64(1+rng.Intn(2))
+					}
+				}
+				fwd := s.ID
+				if otherFwd {
+					fwd = s.ID + "y"
+				}
+				send(uint64(2+step), conns, fwd)
+				switch {
+				case otherFwd:
+					expectClosed = true
+				case lists && wrong:
+					expectClosed = true
+				case !lists && listed:
+					expectClosed = true
+				case lists:
+					listed = true
+				}
+				if !expectClosed && p.WaitEOF(20*time.Millisecond) {
+					viol = append(viol, Violation{"C11:admissible-session-closed", fmt.Sprintf("session %d (%+v) was closed at step %d of a behaving follow-up", i, s, step), desc})
+				}
+			}
 		case "reject_frame":
 			_ = p.SendRaw([]byte{netceptor.MsgTypeReject, '[', ']'})
 			_ = nlBarrier(col, vn, p, 20*time.Second)
@@ -323,7 +369,7 @@ func runAdmitScenario(col *trace.Collector, rng *rand.Rand, idx int) (hooks []ve
 		if _, ok := col.WaitFor(h0, 20*time.Second, func(r verifhook.Record) bool {
 			return r["n"] == vn && r["ev"] == "sess_end" && r["sess"] == label
 		}); !ok {
-			return nil, nil, fmt.Sprintf("session %d: link cut but the node never ended the session", i), desc, 0
+			return nil, viol, fmt.Sprintf("session %d: link cut but the node never ended the session", i), desc, 0
 		}
 	}
 	deadline := time.Now().Add(10 * time.Second)
@@ -359,7 +405,7 @@ func runAdmitScenario(col *trace.Collector, rng *rand.Rand, idx int) (hooks []ve
 	}
 	if lastChange > h0 {
 		if _, ok := col.WaitFor(lastChange, 20*time.Second, evForNode(vn, "rebuild")); !ok {
-			return nil, nil, "no rebuild after the last connection change", desc, 0
+			return nil, viol, "no rebuild after the last connection change", desc, 0
 		}
 	}
 	st := n.N.Status()
